@@ -139,13 +139,17 @@ def mc(module, cfg, tag, **kw):
     return logp, st
 
 
-def dump_cases(logp, comp, prefix, path, limit=None, tag='CASE'):
+def dump_cases(logp, comp, prefix, path, limit=None, tag='CASE', extra=None):
     """TLC edge dump (one concrete path per transition) -> executor cases."""
     n = 0
     with open(path, 'w') as f:
         for h in tlcdump.printed_json(logp, tag):
             n += 1
-            f.write(json.dumps({'id': '%s%d' % (prefix, n), 'comp': comp, 'ops': h}, separators=(',', ':')) + '\n')
+            ep = {'id': '%s%d' % (prefix, n), 'comp': comp}
+            if extra:
+                ep.update(extra)
+            ep['ops'] = h
+            f.write(json.dumps(ep, separators=(',', ':')) + '\n')
             if limit and n >= limit:
                 break
     return n
